@@ -1,0 +1,8 @@
+//go:build !verif
+
+package kv
+
+import "github.com/cockroachdb/pebble/vfs"
+
+// verifFS is only ever set by builds with the `verif` tag (see zz_verif_crash.go).
+var verifFS vfs.FS
